@@ -25,6 +25,18 @@ CLAIMED = {
  'C11': ('property-based differential testing against affine big-integer arithmetic: constructed Jacobian representations (equal/opposite points with different Z, infinity forms), exhaustive single-byte fixed-base scalars and table entries, nibble/edge scalars, all pairs of boundary-limb field operands, operands crafted to land on reduction boundaries; proptest-generated rest',
          'Points are [k]G from the affine reference, rewritten by the harness into chosen Jacobian/Montgomery representations; every library result is decoded with big integers only and compared with the affine group law (add incl. P=Q and P=-Q with equal and different Z and infinity operands, double, negate, variable-base and fixed-base multiplication incl. scalars >= n, affine conversion, SEC1 encodings, validity predicates with off-curve perturbations). All 8160 table entries and all 8160 single-byte fixed-base scalars exhaustively; 1.5*10^6 field-operation cases on boundary limbs per run plus crafted Montgomery/add/sub corner cases.',
          'Trusted: harness/src/refimpl/{field,ec,sm2}.rs over num-bigint (G has order n; GM/T 0003.5 Annex examples reproduced). Field operands are canonical (< modulus). Dead code (fp_div2, fn_inv) is not a subject. Hooks used: re-exports of fields::{fp64,fn64} and of the table.', '5/C11'),
+ 'C03': ('property-based differential testing with injected nonces: proptest (key, ID, message, k) against a reference GB/T 32918.2 signer/verifier on affine big-integer arithmetic; cross-verification in both directions; OpenSSL-signed golden corpus; Annex example',
+         'With the nonce injected through the RNG hook the 64 signature bytes must equal the reference signer\'s output and the retry rule must consume the same number of candidates; every signature (also with the library\'s own RNG) must have r,s in [1,n-1], satisfy the independent verification equation and be accepted by the library under the matching key/ID; signatures made by the reference (random k) and by OpenSSL must be accepted. Keys and nonces come from an edge-biased generator (1, 2, n-2, 2^i, 2^i-1, boundary limbs), IDs from None/empty/1..8191 bytes/UTF-8, messages 0..4096 bytes.',
+         'Trusted: harness/src/refimpl/sm2.rs (reproduces the GM/T 0003.5 Annex signature, ciphertext and key-exchange values), OpenSSL 3.0.20 corpus. Hook: RNG candidate override (the library\'s own rejection loop still runs). Retry branches with probability ~2^-256 (r = 0, r + k = n, s = 0) are not reachable.', '5/C03'),
+ 'C04': ('structure-aware tampering of reference-made signatures (exhaustive 512 bit flips and all lengths 0..=130 per base, component substitutions, message/ID/key changes, random pairs, stored golden small-r/small-s signatures) judged two-sidedly by an independent reference verifier',
+         'Every case is (valid base signature made by the reference signer, tampering); the library must return Ok exactly when the reference verifier accepts and must never panic. Exhaustive per base: all 512 single-bit flips of r||s, every length 0..=130 (truncation, extension with zeros/0xFF/random); r/s in {0,1,n-1,n,n+1,2^256-1,p,2^255}, s=n-r, swap, r+n/s+n (through golden inputs found by a 2^32 search so that they fit in 32 bytes), message flip/truncate/extend, other ID, other key.',
+         'Trusted: reference verifier. Rejection is decided for the generated tamperings; not a proof of unforgeability. Deleting the r-range check or comparing fewer bytes of r is unobservable for any black-box test (the final comparison is on canonical values / needs a 2^-248 coincidence) and is not claimed.', '5/C04'),
+ 'C05': ('property-based differential and round-trip testing with injected nonces: every |M| 1..=300 x 4 configurations exactly equal to a reference GB/T 32918.4 encryptor; independent decryption of every library ciphertext; reference- and OpenSSL-made ciphertexts; KDF differential for every klen 1..=300',
+         'With k injected the whole ciphertext must equal the reference encryptor\'s byte for byte (all four compressed/uncompressed x C1C2C3/C1C3C2 configurations, every length 1..=300 incl. klen mod 32 = 0, random lengths to 2^12/2^16, zero/0xFF/leading-zero messages); every library ciphertext (also with its own RNG) must decrypt under the independent decryptor (C1 on curve, C2 = M xor KDF, C3 = SM3(x2||M||y2)) and round-trip in the library; reference-made and 72 OpenSSL-made ciphertexts and the Annex example must decrypt; util::kdf equals the reference KDF.',
+         'Trusted: reference encryptor/decryptor/KDF (Annex ciphertext reproduced bit for bit), OpenSSL corpus. Hook: RNG candidate override. The all-zero-KDF retry (probability 2^-8|M|) is only reachable for 1-byte messages by chance.', '5/C05'),
+ 'C06': ('structure-aware tampering of reference-made ciphertexts (exhaustive bit flips, truncations and prefix bytes per base; invalid-curve forgeries with consistent C2/C3; non-residue, nudged and non-canonical C1) judged by an independent strict decryptor',
+         'Every case is (valid base ciphertext made by the reference encryptor, tampering); whatever the reference decryptor rejects the library must reject with Err (a plaintext or a panic is a violation), and an accepted ciphertext must give the original plaintext. Exhaustive per base: every single-bit flip incl. the prefix byte, every truncation length, all 256 prefix bytes; C1 replaced by off-curve points with C2/C3 forged through the group law of the curve y^2=x^3+ax+b\' the point lies on (the invalid-curve attack in its sensitive form), by x+p encodings of small-x points, by non-residue compressed x, by the other SEC1 form; 600 (thorough 20000) parity-only flips of compressed C1.',
+         'Trusted: reference decryptor with strict SEC1 decoding. Rejection is decided for the generated tamperings only.', '5/C06'),
 }
 PENDING_REASON = 'check not implemented yet in this commit (work in progress; planned in DESIGN.md section 5) — not claimed until its machinery exists and is silent on the unchanged tree'
 
